@@ -21,7 +21,7 @@ from sr.symreal import SReal, conj, lift, model_value, sym_vector
 from . import replays
 
 
-from .c11_ground import LABEL_TYPES, _ground, configs, labels_for
+from .c11_ground import LABEL_TYPES, _ground, configs, labels_for, pipeline_specs
 
 
 def q(v):
@@ -109,21 +109,7 @@ def run(check: Check) -> None:
     # pipeline: encoding = a x coding[level]
     levels = ["x", "y", "z"]
     rows = ["x", "y", "z", "y", "x", "z", None]
-    specs = [
-        ("C(A)", ref.as_float(ref.treatment(3, 0)), levels),
-        ("C(A, contr.treatment(base='y'))", ref.as_float(ref.treatment(3, 1)), levels),
-        ("C(A, contr.treatment('z'))", ref.as_float(ref.treatment(3, 2)), levels),
-        ("C(A, contr.SAS)", ref.as_float(ref.sas(3)), levels),
-        ("C(A, contr.sum)", ref.as_float(ref.sum_(3)), levels),
-        ("C(A, contr.helmert)", ref.as_float(ref.helmert(3)), levels),
-        ("C(A, contr.helmert(reverse=False, scale=True))", ref.as_float(ref.helmert(3, False, True)), levels),
-        ("C(A, contr.diff)", ref.as_float(ref.diff(3)), levels),
-        ("C(A, contr.diff(backward=False))", ref.as_float(ref.diff(3, False)), levels),
-        ("C(A, contr.poly)", ref.poly(3), levels),
-        ("C(A, levels=['z', 'x', 'y'])", ref.as_float(ref.treatment(3, 0)), ["z", "x", "y"]),
-        ("C(A, contr.sum, levels=['y', 'z', 'x', 'w'])", ref.as_float(ref.sum_(4)), ["y", "z", "x", "w"]),
-        ("C(A, contr.treatment, levels=['w', 'x', 'y', 'z'])", ref.as_float(ref.treatment(4, 0)), ["w", "x", "y", "z"]),
-    ]
+    specs = pipeline_specs()
     n = len(rows)
     df = pandas.DataFrame({"A": pandas.Categorical(rows, categories=levels)})
     kept = [i for i, r in enumerate(rows) if r is not None]
